@@ -140,7 +140,7 @@ class Synthetic5D(BenchmarkFunction):
         self.robust_optimum = 1.0
         self.robust_optimum_coords = [3.0, 1.0, 3.0, 2.0, 5.0]
         # single objective problem
-        self.costs = [{'name': 'f_1', 'criteria': 'minimize'}]
+        self.costs = [{'name': 'f_1', 'criteria': 'maximize'}]
 
     def evaluate(self, x):
         x = x.vector
@@ -192,7 +192,7 @@ class Synthetic10D(BenchmarkFunction):
         self.robust_optimum = 1.0
         self.robust_optimum_coords = [3.0, 1.0, 3.0, 2.0, 5.0, 3.0, 1.0, 3.0, 2.0, 5.0]
         # single objective problem
-        self.costs = [{'name': 'f_1', 'criteria': 'minimize'}]
+        self.costs = [{'name': 'f_1', 'criteria': 'maximize'}]
 
     def evaluate(self, x):
         x = x.vector
